@@ -790,6 +790,12 @@ class C05(FaultMonitorMixin, BaseMonitor):
             if x < 0.18:
                 present = sorted({o["cls"] for n_, o in spec["objs"].items() if n_ in inside})
                 entries = [e for e in faults.catalogue(spec, r.choice(present)) if e["strong"]]
+                if r.random() < 0.4:
+                    # values that pass parsing and are refused while being installed or by the allowed-value check
+                    late = [e for cls_ in present for e in faults.catalogue(spec, cls_)
+                            if e["fault"] in ("quantity_not_in_allowed_list", "not_in_allowed_list",
+                                              "not_allowed_for_current_provider", "key_change_invalidating_dependent_value")]
+                    entries = late or entries
                 if entries:
                     e = r.choice(entries)
                     extra, tag = [{"obj": e["obj"], "attr": e["attr"], "value": e["value"]}], "F1:" + e["fault"]
@@ -804,6 +810,10 @@ class C05(FaultMonitorMixin, BaseMonitor):
             if op is not None:
                 if tag:
                     op["fault"] = tag
+                if tag and tag.startswith("F1") and len(op["changes"]) > 1 and r.random() < 0.5:
+                    # refusals that happen while *installing* the changes are most interesting after valid ones
+                    bad = [c for c in op["changes"] if c["obj"] == extra[0]["obj"] and c["attr"] == extra[0]["attr"]]
+                    op["changes"] = [c for c in op["changes"] if c not in bad] + bad
                 return op
         return opgen.gen_edit(r, spec, self.cfg, i, focus=getattr(self, 'focus', None))
 
@@ -1749,7 +1759,8 @@ class C08(BaseMonitor):
             sp = S.clone(spec)
             r = self.k.rng("sweep-value", i, n, a)
             if v[0] == "q":
-                f = r.choice([0.5, 0.25, 2.0, 3.0])
+                # mostly moderate factors, sometimes a jump large enough to cross an hour / instance boundary
+                f = r.choice([0.5, 0.25, 2.0, 3.0, 0.5, 2.0, 60.0, 1 / 60.0])
                 new = ["q", (v[1] * f) if v[1] != 0 else 1.0, v[2]]
                 if a == "server_utilization_rate":
                     new[1] = min(max(new[1], 0.3), 1.0)
